@@ -44,6 +44,8 @@ def main(ids):
             txt = re.sub(r'path\s*=\s*"[^"]*ciphercore-(base|utils)"', lambda m: 'path = "%s/ciphercore-%s"' % (WT, m.group(1)), txt)
             open(ct, "w").write(txt)
             demo_cmd, demo_cwd = ["cargo", "run", "--offline", "-j", "8"], os.path.join(WT, "deliver", "demo")
+            if not os.path.exists(os.path.join(demo, "src", "main.rs")):
+                demo_cmd = ["cargo", "test", "--offline", "-j", "8"]   # a test-only demonstration crate
         elif has_demo:
             # an integration-test file: run it as ciphercore-base/tests/seeded_demo.rs
             os.makedirs(tdir, exist_ok=True)
